@@ -20,8 +20,8 @@ META = {
                    'raises or returns tensors carrying the input dtype; a converted module must equal the constructed one (exact identity of the symbolic outputs; None levels '
                    'included); (b) tap quantisation - the real-arithmetic transform with taps rounded to float32 exactly as torch.tensor(..., dtype=float32) does, minus the float64 '
                    'one, must stay within 64*eps32*gain for every input in [-1,1]^n (z3, linear residual); (c) strided inputs - runs on sliced / transposed / stepped symbolic views '
-                   'must equal runs on their contiguous copies. NOT decided: floating-point rounding of the arithmetic inside ATen/oneDNN kernels.',
-    'bounds': {'added_families': ['stride-0 expanded channel view', 'ScatLayer view checks (expand, chlast, transposed, chanslice)'],
+                   'must equal runs on their contiguous copies; (d) finite_scat - every reciprocal atom created by the symbolic forward run of a scattering layer (magbias 0 and 0.01) has an argument whose interval enclosure over |x| <= 1 excludes 0, else an exact witness (all-zero / one-pixel image) is replayed on real torch in float32 and float64 and must give a non-finite output to be reported (interval / witness decision, no z3 query; the unchanged library divides nowhere in these passes). NOT decided: floating-point rounding of the arithmetic inside ATen/oneDNN kernels.',
+    'bounds': {'added_families': ['finite_scat: ScatLayer 4x4 (C=1; colour C=3), ScatLayerj2 8x8, magbias in {0, 0.01}', 'stride-0 expanded channel view', 'ScatLayer view checks (expand, chlast, transposed, chanslice)'],
                'quick': {'transforms': KINDS, 'configs per transform': 2, 'precision combinations': 8, 'views': ['x[..., ::2]', 'transposed', 'channel slice of a wider tensor', 'batch-offset slice', 'channels_last / NHWC-permuted storage']},
                'thorough': {'configs per transform': 5}},
     'outside': 'rounding/accumulation order inside kernels (a cancellation-prone reformulation is invisible here); half/bfloat16 kernels; CUDA',
